@@ -364,6 +364,12 @@ fn geometry_stream(r: &mut Rng, prop: &str, tier: u32, out: &mut Vec<String>) {
             };
             let y = if r.below(3) == 0 { raw(r, w, h, 0, 0) } else { plane_n(w, h, 0, 0, 0, 0) };
             let cw = if r.below(4) == 0 { 1 } else { w >> ssx }; let ch = if r.below(4) == 0 { 1 } else { h >> ssy };
+            // chroma planes with the right sample count but the wrong shape (transposed, or w*k x h/k): a validation that
+            // compares areas instead of dimensions accepts them, and decoding then runs past the last chroma row
+            let (cw, ch) = match r.below(5) {
+                0 => (h >> ssy, w >> ssx),
+                1 => { let (a, b) = (w >> ssx, h >> ssy); let k = *r.pick(&[2u64, 3, 4]); if b % k == 0 { (a * k, b / k) } else if a % k == 0 { (a / k, b * k) } else { (a * b, 1) } }
+                _ => (cw, ch) };
             let u = if r.below(2) == 0 { raw(r, cw, ch, ssx as u64, ssy as u64) } else { plane_n(cw, ch, ssx as u64, ssy as u64, 0, 0) };
             let v = if r.below(2) == 0 { raw(r, cw, ch, ssx as u64, ssy as u64) } else { plane_n(cw, ch, ssx as u64, ssy as u64, 0, 0) };
             let line = format!("{} {} {} {} 0 BT709 BT1886 BT709 | {} | {} | {} | fill {} {}", ts, bd, ssx, ssy, y, u, v, r.below(1 << 20), (1u64 << bd) - 1);
